@@ -73,6 +73,9 @@ pub struct Posting {
 #[derive(Clone, Debug, PartialEq, Serialize, Deserialize)]
 pub struct Txn {
     pub date: i32, // days since 2020-01-01
+    /// `DATE=EFFECTIVE` in the header; the report layer never reads it
+    #[serde(default)]
+    pub effective: Option<i32>,
     pub posts: Vec<Posting>,
 }
 
@@ -193,7 +196,10 @@ pub fn render(entries: &[Entry]) -> Rendered {
         let mut offs = Vec::new();
         match e {
             Entry::Txn(t) => {
-                writeln!(text, "{} txn{}", date_text(t.date), k).unwrap();
+                match t.effective {
+                    Some(ed) => writeln!(text, "{}={} txn{}", date_text(t.date), date_text(ed), k).unwrap(),
+                    None => writeln!(text, "{} txn{}", date_text(t.date), k).unwrap(),
+                }
                 line += 1;
                 for p in &t.posts {
                     offs.push(text.len());
@@ -286,7 +292,12 @@ pub fn entry_term(e: &Entry) -> String {
                     )
                 })
                 .collect();
-            format!("(ETxn (T {} [{}]))", coq::z(t.date as i128), posts.join("; "))
+            match t.effective {
+                // the effective date is written into the case; the book-keeping model has no place
+                // for it (add_transaction reads txn.date only): Run/LedgerCase.v TE
+                Some(ed) => format!("(ETxn (TE {} {} [{}]))", coq::z(t.date as i128), coq::z(ed as i128), posts.join("; ")),
+                None => format!("(ETxn (T {} [{}]))", coq::z(t.date as i128), posts.join("; ")),
+            }
         }
         Entry::Format(c, dp) => format!("(EFormat {} {})", c, dp),
         Entry::Comment => "ENop".into(),
@@ -925,7 +936,7 @@ pub fn gen_txn(r: &mut Rng, date: i32, b: &Bias, bal: &mut Bal, formats: &BTreeM
         }
     }
     *bal = local;
-    Txn { date, posts }
+    Txn { effective: None, date, posts }
 }
 
 pub fn gen_ledger(r: &mut Rng, b: &Bias) -> Vec<Entry> {
